@@ -224,14 +224,12 @@ func runC03(c *Ctx) {
 		// returns the successor of the head and advances head to it
 		okRet := true
 		var nextObj types.Object
-		ast.Inspect(deq.Decl.Body, func(n ast.Node) bool {
-			if as, ok := n.(*ast.AssignStmt); ok && len(as.Lhs) == 1 {
-				if id, ok := as.Lhs[0].(*ast.Ident); ok && id.Name == "next" {
-					nextObj = info.ObjectOf(id)
-				}
-			}
-			return true
-		})
+		nextF := c.Field("actor", "ReceiveContext", "next")
+		if ls := localsDefinedBy(info, deq.Decl.Body, func(def ast.Expr) bool {
+			return containsNode(def, func(n ast.Node) bool { _, k := atomicOnIn(info, n, nextF); return k == "LoadPointer" })
+		}); len(ls) == 1 {
+			nextObj = ls[0]
+		}
 		for _, a := range f.Returns() {
 			r := a.N.(*ast.ReturnStmt)
 			if len(r.Results) == 1 && !isNilIdent(info, r.Results[0]) && objOf(info, r.Results[0]) != nextObj {
